@@ -80,6 +80,15 @@ class TargetReport:
 
 
 def concretize(v, model, depth=0):
+    if type(v).__name__ == 'SStr':
+        from . import sstr
+        vals = {}
+        for s_ in v.segs:
+            if isinstance(s_, sstr.Atom):
+                vals[s_.name] = s_.sample
+            elif isinstance(s_, sstr.Num) and not isinstance(s_.n, int):
+                vals[str(s_.n.e)] = smt.model_value(model, s_.n.e)
+        return sstr.concretise(v, vals)
     if isinstance(v, Sym):
         return smt.model_value(model, v.e)
     if isinstance(v, z3.ExprRef):
@@ -97,6 +106,8 @@ def concretize(v, model, depth=0):
 
 def model_inputs(ctx, model):
     out = {name: smt.model_value(model, cst) for name, cst in ctx.inputs.items()}
+    for name, a in getattr(ctx, 'atoms', {}).items():
+        out[name] = a.sample          # structured-string atoms: any value satisfying the declared facts
     if ctx.map_inputs:
         # a symbolic map is read from the model at the relevant keys: every string the model gives to a
         # scalar input plus every literal key the code / contract used
@@ -170,7 +181,8 @@ def native_run(target, inputs, choices):
                 if fn is None or not callable(getattr(fn, '__func__', fn)):
                     return None
                 return _types.MethodType(getattr(fn, '__func__', fn), obj)
-            object.__setattr__(getattr(st, handle), '_fallback', nfb)
+            if isinstance(getattr(st, handle), Obj):
+                object.__setattr__(getattr(st, handle), '_fallback', nfb)
         with target.patched(externs):
             out = target.run_native(ctx, st)
             clauses = list(target.ensures(ctx, st, out))     # evaluated under the same patched externs
@@ -237,11 +249,21 @@ def explore_chunk(target, work, limit, carve_names, tier, cross_check=True):
                 try:
                     iex = _ex.function(ifile, icls + '.' + mname)
                 except _ex.AnchorLost:
+                    # a class-level constant (read from the REAL class, i.e. from /repo's current tree)
+                    import copy as _copy
+                    mod_, _g2 = _ex.module_globals(ifile)
+                    k = mod_
+                    for part in icls.split('.'):
+                        k = getattr(k, part)
+                    v = k.__dict__.get(mname, None)
+                    if isinstance(v, (str, int, float, tuple, list, dict, frozenset, set)):
+                        return _copy.deepcopy(v)
                     return None
                 _, iglobs = _ex.module_globals(ifile)
                 rep.inlined[icls + '.' + mname] = iex.describe()
                 return BoundClosure(Closure(iex.node, Env(globs=iglobs), it, icls + '.' + mname), obj)
-            object.__setattr__(getattr(st, handle), '_fallback', fb)
+            if isinstance(getattr(st, handle), Obj):
+                object.__setattr__(getattr(st, handle), '_fallback', fb)
         out = None
         try:
             out = target.run_symbolic(ctx, st, it, ex, globs)
